@@ -107,6 +107,32 @@ async fn exchange(sched: &mut Sched<'_>, src: &mut Src, stream: &StreamHandle, g
     None
 }
 
+const SCRIPTS: &[&str] = &[
+    "return redis.call('GET', KEYS[1])",
+    "local v = redis.call('GET', KEYS[1]); redis.call('SET', KEYS[1], (v or '') .. ARGV[1]); return v",
+    "return redis.call('INCRBY', KEYS[1], ARGV[1])",
+    "return {KEYS[1], ARGV[1]}",
+];
+fn sha1_hex(text: &str) -> String {
+    use sha1::{Digest, Sha1};
+    let mut h = Sha1::new();
+    h.update(text.as_bytes());
+    h.finalize().iter().map(|b| format!("{:02x}", b)).collect()
+}
+/// EVAL / SCRIPT LOAD / EVALSHA / SCRIPT EXISTS / SCRIPT FLUSH over a handful of one-key scripts.
+pub fn script_cmd(s: &mut Src, key: Vec<u8>) -> Cmd {
+    let b = |x: &str| x.as_bytes().to_vec();
+    let sc = SCRIPTS[s.idx(SCRIPTS.len())];
+    let arg = [b("1"), b("x"), b("-3")][s.idx(3)].clone();
+    match s.weighted(&[3, 3, 4, 1, 1]) {
+        0 => vec![b("EVAL"), b(sc), b("1"), key, arg],
+        1 => vec![b("SCRIPT"), b("LOAD"), b(sc)],
+        2 => vec![b("EVALSHA"), b(&sha1_hex(sc)), b("1"), key, arg],
+        3 => vec![b("SCRIPT"), b("EXISTS"), b(&sha1_hex(sc)), b(&sha1_hex(SCRIPTS[s.idx(SCRIPTS.len())]))],
+        _ => vec![b("SCRIPT"), b("FLUSH")],
+    }
+}
+
 impl C03 {
     /// Connection-level twin: the same command stream (with MULTI/EXEC blocks) goes through the
     /// production connection handler in front of a 1-shard and an N-shard server.
@@ -205,7 +231,7 @@ impl Property for C03 {
     fn components_real(&self) -> Vec<&'static str> { vec!["production::ShardedActorState<T>::{execute,fast_get,fast_set,pooled_fast_get,pooled_fast_set,fast_batch_get_pipeline,fast_batch_set_pipeline}", "ShardActor tasks and their CommandExecutors", "Command::from_resp_zero_copy (production parser)", "hash_key / hash_key_bytes routing, MGET/MSET/DEL/EXISTS/KEYS/SCAN/DBSIZE/FLUSH fan-out"] }
     fn components_stubbed(&self) -> Vec<&'static str> { vec!["four runs in five enter through the ShardedActorState API; every fifth through the production connection handler (hook H1) on a SimStream, with MULTI/EXEC blocks", "TimeSource -> SimClock (API level) / ProductionTimeSource behind hook H2 (connection level)"] }
     fn assumptions(&self) -> Vec<&'static str> { vec!["SPOP/SRANDMEMBER are excluded (their choice is legitimately random)", "replies of unordered commands are compared as multisets; SCAN-family replies by their item sets"] }
-    fn required_probes(&self) -> Vec<&'static str> { vec!["key_via_two_paths", "multikey_cmd", "connection_level_run", "transaction_replayed_on_n_shards"] }
+    fn required_probes(&self) -> Vec<&'static str> { vec!["key_via_two_paths", "multikey_cmd", "connection_level_run", "transaction_replayed_on_n_shards", "script_command"] }
     fn runs(&self, tier: Tier) -> u64 { match tier { Tier::Quick => 150000, Tier::Thorough => 3000000 } }
 
     fn run(&self, src: &mut Src, ctx: &RunCtx) -> RunReport {
@@ -218,6 +244,9 @@ impl Property for C03 {
             let mut c = gen_cmd(s, &mut g);
             let nm = String::from_utf8_lossy(&c[0]).to_uppercase();
             if nm == "SPOP" { c = vec![b"SCARD".to_vec(), c[1].clone()]; }
+            // scripts: run by text and by digest, loaded, looked up and flushed - the script cache is shared state that
+            // every shard must see alike
+            if s.chance(1, 10) { c = script_cmd(s, if c.len() >= 2 { c[1].clone() } else { b"k0".to_vec() }); }
             let pa = [Path::Generic, Path::Fast, Path::Pooled, Path::Batch][s.idx(4)];
             let pb = [Path::Generic, Path::Fast, Path::Pooled, Path::Batch][s.idx(4)];
             let adv = if s.chance(1, 4) { [1u64, 999, 1000, 1500, 10_000, 100_000][s.idx(6)] } else { 0 };
@@ -233,6 +262,7 @@ impl Property for C03 {
             let fastable = (nm == "GET" && c.len() == 2) || (nm == "SET" && c.len() == 3);
             if c.len() >= 2 { let e = via.entry(c[1].clone()).or_default(); e.insert(if fastable { pb.name() } else { "execute" }); let _ = pa; }
             if matches!(nm.as_str(), "MGET" | "MSET" | "MSETNX" | "DEL" | "EXISTS" | "RPOPLPUSH" | "LMOVE" | "RENAME" | "RENAMENX") && c.len() > 2 { rep.probe("multikey_cmd"); }
+            if matches!(nm.as_str(), "EVAL" | "EVALSHA" | "SCRIPT") { rep.probe("script_command"); }
         }
         if via.values().any(|s| s.len() >= 2) { rep.probe("key_via_two_paths"); }
         let cmds2 = cmds.clone();
